@@ -959,7 +959,10 @@ Section Ops.
   | OpRelease (opts : list (N * option N)) (hint : list N)
   | OpReleaseByHandle (h : N) (hint : list N)
   | OpClaimAffinity (c : N)
-  | OpReleaseAffinity (c : N) (must_be_empty : bool).
+  | OpReleaseAffinity (c : N) (must_be_empty : bool)
+  (* with MaxAllocToHandlePerIPVersion = ma > 0 (programs in ModelV.v); hint: order in which IPsByHandle visits blocks *)
+  | OpAutoAssignM (h tag : N) (num : nat) (ma : N) (hint : list N)
+  | OpAssignIPM (h tag : N) (a : N) (ma : N) (hint : list N).
 
   Definition compile (host : N) (o : op) : prog result :=
     match o with
@@ -969,6 +972,7 @@ Section Ops.
     | OpReleaseByHandle h hint => release_by_handle h hint
     | OpClaimAffinity c => claim_aff_loop R host c
     | OpReleaseAffinity c must => release_aff_loop R host c must
+    | OpAutoAssignM _ _ _ _ _ | OpAssignIPM _ _ _ _ _ => Ret (ResErr EOutOfModel)   (* see ModelV.compile_w *)
     end.
 End Ops.
 
